@@ -18,6 +18,13 @@ unproductive ones included) are compared bit for bit with the extracted MIRROR o
 minimum / maximum / u16::MAX for unbounded (C17_min_costs_fixed_exact, C17_max_costs_fixed_exact); a hang or a
 panic of the implementation where the mirror returns values is a violation; no known-finding class applies.
 COSTS_FIXED = True (the original functions): the four recorded defect classes are matched as known findings.
+The queries one by one (checks/c17_queries.py, harness bin c17q, theories/C17/Query*.v): (1) every cost query of every rule of an
+overflow family under its own catch_unwind, each panic classified against the certified costs — own cost >= 65535: accepted
+refusal; only another rule's: known finding C17-overflow-unrelated-rule; none: violation (C17_cost_query_exact_or_foreign_overflow,
+C17_cost_query_panics_only_if_own_or_foreign); (2) min_sentences on a thread with an explicit 2 MiB stack, one process per run,
+chains of distinct rules and shallow controls — stack overflow inside min_sentences at a recursion depth >= 1000: known finding
+C17-min_sentences-recursion-depth, any other crash or a wrong answer: violation (C17_min_sentences_depth_le_rules,
+C17_min_sentences_depth_unbounded_refuted); (3) min_sentences = its extracted mirror, sentence list in order.
 """
 import itertools
 import os
@@ -818,6 +825,10 @@ def run(ctx):
         ctx.oblige(True)
     exe = core.build_harness("c17")
     mexe = core.build_model("c17")
+    # the queries asked one by one (checks/c17_queries.py): the stack-depth runs (one process each) go on in the background
+    from checks import c17_queries as CQ
+    qexe = core.build_harness("c17q")
+    depth_pending = CQ.start_depth(ctx, qexe)
     cases = gen_cases(ctx, ctx.n(1000, 12000))
     orders = gen_orders(ctx, cases)
     extra = corpus_all_orders(cases)
@@ -913,6 +924,20 @@ def run(ctx):
         ctx.case(lines[i], nontriv, {"family": fam, "grammar": srcs[i], "costs": costs, "differences": sorted(bad),
                                      "certified_costs": {str(r): v for r, v in sorted((mo.cm or {}).items())},
                                      "mirror_rule_min_costs": mo.mm[0] if mo.mm else None})
+    # ---- the queries one by one: overflow of one rule, recursion depth of min_sentences, the mirror of min_sentences
+    qbad, qknown, qstats = CQ.eval_overflow(ctx, rep, qexe, mexe, Model, names)
+    dbad, dknown, dstats = CQ.finish_depth(ctx, rep, depth_pending)
+    mbad, n_msb = CQ.eval_msb_mirror(ctx, rep, mexe, lines, [p2[i][0] if i in p2 else "" for i in range(len(lines))])
+    failed |= qbad | dbad | mbad
+    aspects += ["overflow-queries", "overflow-panic", "query-panic", "query-values", "min_sentences-depth", "depth-values",
+                "depth-crash", "msb-mirror"]
+    if qknown:
+        CQ.patch_note(ctx, CQ.K_OVF, "%s (%d queries, first: %s)" % (CQ.K_OVF, len(qknown), qknown[0]))
+    if dknown:
+        CQ.patch_note(ctx, CQ.K_DEPTH, "%s (%d runs, first: %s)" % (CQ.K_DEPTH, len(dknown), dknown[0]))
+    ctx.coverage["queries_one_by_one"] = dict(qstats, **dstats)
+    ctx.coverage["queries_one_by_one"]["rules_whose_min_sentences_equals_the_mirror_in_order"] = n_msb
+    ctx.coverage["queries_one_by_one"]["known_class_instances"] = {"overflow_of_another_rule": qknown[:6], "stack_depth": dknown[:6]}
     for a in aspects:
         ctx.oblige(a not in failed, a)
     ctx.coverage["rule"] = ("grammar families: random (incl. unreachable / unproductive / unit-cyclic rules), reduced random, nullable-heavy, "
@@ -924,6 +949,13 @@ def run(ctx):
                             "generator in one of 7 orders (max first / min first / min_sentence first / min_sentences first / every query twice / "
                             "interleaved per rule / max first and last), order drawn per case, every corpus grammar under every order: the answers "
                             "must be the model's whatever the order and a repeated query must repeat its answer; "
+                            "queries one by one (checks/c17_queries.py): every query of every rule of an overflow family (the two grammars "
+                            "of the audit, true costs exactly 65534 / 65535, max-only overflow, reachable overflow, unbounded and large "
+                            "controls, random non-recursive grammars plus one long rule around the boundary) on fresh generators and on "
+                            "one generator, each panic classified against the certified costs (own cost >= 65535: accepted refusal; only "
+                            "another rule's: known class; none: violation); min_sentences on a thread with an explicit 2 MiB stack in its "
+                            "own process for chains of 501 .. 12001 (thorough: .. 20001) rules in three shapes and wide / tree controls; "
+                            "min_sentences = its extracted mirror, sentence list in order, for every rule of every enumerated case; "
                             "non-trivial = some rule is nullable or recursive; distinct by case line")
     ctx.coverage["query_orders"] = {str(k): ctx.hist.get("query_order_%d" % k, 0) for k in sorted(ORDERS)}
     ctx.coverage["exhaustive"] = False
@@ -938,6 +970,12 @@ def run(ctx):
         ("COSTS_FIXED = False: the original rule_min_costs / rule_max_costs are in /repo; their four defect classes are known findings; the mirror of "
          "the repaired functions is only cross-checked against the certified reference (C17_fixed_costs_agree_certified)"),
         "min_sentences is compared as a set (duplicates and order are free); sets beyond 400 sentences are not compared",
+        "a panic of a cost query is accepted as the documented refusal only when the ASKED rule's own true finite cost is >= 65535 (min-side "
+        "queries: its minimum; max_sentence_cost: its maximum); a panic caused by another rule's cost is the known class "
+        "C17-overflow-unrelated-rule, any other panic a violation",
+        "the native stack is observed with the thread stack size Rust gives spawned threads (2 MiB) in the harness's release profile; "
+        "the known class C17-min_sentences-recursion-depth is a stack overflow INSIDE min_sentences whose recursion (frames counted by "
+        "the transcription of the mirror) is at least 1000 calls deep",
         "the reference costs are certified per case by verified checkers (C17_certified_costs_exact); a case on which the search finds no "
         "accepted certificate is counted as 'reference_costs_not_certified' and fails an obligation, it is never turned into a verdict",
     ]
